@@ -428,7 +428,37 @@ def build_T6h(tree):
     return text, sha
 
 
+def build_T6i(tree):
+    """whether the presentation stage inverts: PresentationLUTShape, else MONOCHROME1"""
+    fn = _init(tree)
+    hits = _walk_ifs(fn, lambda n: ast.unparse(n.test) == 'apply_presentation_lut'
+                     and any('PresentationLUTShape' in ast.unparse(x) for x in n.body))
+    if len(hits) != 1:
+        raise Unsupported('presentation-shape block not found')
+    node = hits[0]
+
+    class R(ast.NodeTransformer):
+        def visit_Compare(self, n):
+            if ast.unparse(n) == "'PresentationLUTShape' in image":
+                return ast.copy_location(ast.Name(id='has_shape', ctx=ast.Load()), n)
+            return self.generic_visit(n)
+    body = [R().visit(copy.deepcopy(st)) for st in node.body]
+    stmts = [ast.parse('invert = False').body[0], ast.If(test=ast.Name(id='apply_presentation_lut', ctx=ast.Load()), body=body, orelse=[]),
+             _ret('invert')]
+    for st in stmts:
+        ast.fix_missing_locations(st)
+    # the variable must start as False before the block
+    init = [n for n in ast.walk(fn) if isinstance(n, ast.Assign) and ast.unparse(n) == 'invert = False']
+    if not init:
+        raise Unsupported('invert is no longer initialised to False')
+    text = translate_block(stmts, 'presentationInverts', [('apply_presentation_lut', 'bool'), ('has_shape', 'bool')],
+                           {'image.PresentationLUTShape': ('str', 'shape'), 'image.PhotometricInterpretation': ('str', 'photometric')},
+                           doc='`_CombinedPixelTransform.__init__`: does the presentation stage invert (`has_shape`: PresentationLUTShape present)')
+    return text, span_sha(node.body)
+
+
 TARGETS = {
+    'T6i': {'file': 'image.py', 'build': build_T6i},
     'T6h': {'file': 'image.py', 'build': build_T6h},
     'T6g': {'file': 'pixels.py', 'build': build_T6g},
     'T6a': {'file': 'image.py', 'build': build_T6a},
